@@ -8,6 +8,8 @@ Program tree (plain tuples):
   ("say", text) | ("set", var, k) | ("add", var, k) | ("sub", var, k) | ("call", fname)   `fname();`
   ("if", [(cond, body), ...], else_body | None)
   ("while", cond, body) | ("dowhile", body, cond) | ("for", init_cmds, cond, step_cmds, body)
+  ("expand", cond, body)     `if (cond) expand { body }`: every statement of the body is guarded by its own fresh
+                             evaluation of cond (used by c03.py only: Model.Loop has no such statement)
 cond = list of items (a conjunction); item = ("atom", atom) | ("or", [[atom, ...], ...]) | ("f", F)
 F    = ("A", atom) | ("&", [F, ...]) | ("|", [F, ...]) | ("!", F)          any nesting
 atom = (var, op, rhs)   op in == != < <= > >= ; rhs an int or a "$var"
@@ -200,6 +202,8 @@ def stmt_src(s, ind=1):
         if s[2] is not None:
             out.append(f"{pad}else {block(s[2], ind + 1)}")
         return "\n".join(out)
+    if k == "expand":
+        return f"{pad}if ({cond_src(s[1])}) expand {block(list(s[2]), ind + 1)}"
     if k == "while":
         return f"{pad}while ({cond_src(s[1])}) {block(s[2], ind + 1)}"
     if k == "dowhile":
@@ -215,9 +219,32 @@ def body_src(body, ind=1):
     return "\n".join(stmt_src(s, ind) for s in body)
 
 
+class NB(list):
+    """a branch / else body written WITHOUT braces: exactly one statement, which is a basic command, a lone `if`
+    (one branch, no else; never as an else body — `else if` is a chain continuation), a `while` or a `for`.
+    Everything but the source printer treats it as the plain list it is (JMC lowers `if (c) stmt` like `if (c) { stmt }`;
+    a JSON round trip drops the marker, replays store the source text)."""
+
+
+NB_KINDS = ("say", "set", "add", "sub", "call", "if", "while", "for")
+
+
+def nb_ok(body, is_else=False):
+    """may this body be written without braces?"""
+    if len(body) != 1:
+        return False
+    s = body[0]
+    if s[0] == "if":
+        return not is_else and len(s[1]) == 1 and s[2] is None
+    return s[0] in NB_KINDS
+
+
 def block(body, ind):
-    """{ ... } ; an empty body is written `{}` (the only spelling add_arrow_function refuses)"""
+    """{ ... } ; an empty body is written `{}` (the only spelling add_arrow_function refuses);
+    a brace-less body (NB) is its single statement, on the same line"""
     pad = "    " * (ind - 1)
+    if isinstance(body, NB):
+        return stmt_src(body[0], ind - 1).lstrip(" ")
     return "{}" if not body else "{\n" + body_src(body, ind) + "\n" + pad + "}"
 
 
@@ -401,6 +428,10 @@ class Interp:
                     return
             if s[2] is not None:
                 self.run(s[2])
+        elif k == "expand":
+            for x in s[2]:
+                if cond_true(s[1], sc, var):
+                    self.stmt(x)
         elif k == "while":
             while cond_true(s[1], sc, var):
                 self.tick(); self.iters += 1
@@ -441,7 +472,7 @@ def prog_vars(body, acc=None):
                 cond(c); prog_vars(b, acc)
             if s[2] is not None:
                 prog_vars(s[2], acc)
-        elif k == "while":
+        elif k in ("while", "expand"):
             cond(s[1]); prog_vars(s[2], acc)
         elif k == "dowhile":
             prog_vars(s[1], acc); cond(s[2])
@@ -534,6 +565,11 @@ class Names:
     def loopvar(self):
         self.n_loop += 1
         return f"$L{self.n_loop}"
+
+    def qvar(self):
+        """a loop counter that is NOT excluded from the enumerated initial states (a stale value may make the test true)"""
+        self.n_loop += 1
+        return f"$q{self.n_loop}"
 
 
 CVARS = ["$a", "$b", "$c", "$d", "$e", "$g"]
@@ -715,15 +751,31 @@ def random_cond(rng, vars_, allow_or=True):
     return items
 
 
-def random_body(rng, nm: Names, depth, vars_, loops=True, maxlen=3):
+def random_body(rng, nm: Names, depth, vars_, loops=True, maxlen=3, bl=False):
     body = []
     for _ in range(rng.choice([1, 1, 2, 2, 3])):
-        body.append(random_stmt(rng, nm, depth, vars_, loops))
+        body.append(random_stmt(rng, nm, depth, vars_, loops, bl))
     return body
 
 
-def random_stmt(rng, nm: Names, depth, vars_, loops=True):
+def random_braceless_loop_chain(rng, nm: Names, depth, vars_):
+    """a chain one of whose bodies is a lone loop (so that it can be written without braces); the counter of a
+    while is initialised BEFORE the chain.  -> ("seq", [...])"""
+    n = rng.choice([1, 2, 2, 3])
+    j = rng.randrange(n + 1)                       # position of the loop body (n = the else)
+    lp = random_loop(rng, nm, depth, vars_, kind=rng.choice(["while", "for", "for"]))
+    pre = []
+    if lp[0] == "seq":
+        pre, lp = [lp[1][0]], lp[1][1]
+    bodies = [[lp] if i == j else random_body(rng, nm, depth - 1, vars_, True, bl=True) for i in range(n + 1)]
+    els = bodies[n] if (j == n or rng.random() < 0.4) else None
+    return ("seq", pre + [("if", [(random_cond(rng, vars_), bodies[i]) for i in range(n)], els)])
+
+
+def random_stmt(rng, nm: Names, depth, vars_, loops=True, bl=False):
     r = rng.random()
+    if bl and loops and depth > 0 and r < 0.22:
+        return random_braceless_loop_chain(rng, nm, depth, vars_)
     if depth <= 0 or r < 0.3:
         k = rng.random()
         if k < 0.55:
@@ -735,13 +787,13 @@ def random_stmt(rng, nm: Names, depth, vars_, loops=True):
         return ("sub", rng.choice(vars_), 1)
     if r < 0.65 or not loops:
         n = rng.choice([1, 1, 2, 2, 3, 4])
-        branches = [(random_cond(rng, vars_), random_body(rng, nm, depth - 1, vars_, loops)) for _ in range(n)]
-        els = random_body(rng, nm, depth - 1, vars_, loops) if rng.random() < 0.5 else None
+        branches = [(random_cond(rng, vars_), random_body(rng, nm, depth - 1, vars_, loops, bl=bl)) for _ in range(n)]
+        els = random_body(rng, nm, depth - 1, vars_, loops, bl=bl) if rng.random() < 0.5 else None
         return ("if", branches, els)
-    return random_loop(rng, nm, depth, vars_)
+    return random_loop(rng, nm, depth, vars_, bl=bl)
 
 
-def random_loop(rng, nm: Names, depth, vars_, kind=None, cond_kind=None):
+def random_loop(rng, nm: Names, depth, vars_, kind=None, cond_kind=None, bl=False):
     """a loop with its own bounded counter $Lk: the condition is `$Lk < N` combined with a random
     condition, and the body increments $Lk (at a random position)."""
     lv = nm.loopvar()
@@ -773,7 +825,7 @@ def random_loop(rng, nm: Names, depth, vars_, kind=None, cond_kind=None):
         # `$Lk < N && x || $Lk < N && y` : an || group at top level, still bounded by the counter
         v, w = rng.choice(vars_), rng.choice(vars_)
         cond = [("or", [[guard, (v, "==", rng.choice([0, 1]))], [guard, (w, ">=", rng.choice([0, 1]))]])]
-    body = random_body(rng, nm, depth - 1, vars_)
+    body = random_body(rng, nm, depth - 1, vars_, bl=bl)
     inc = ("add", lv, 1)
     if kind == "for":
         return ("for", [("set", lv, 0)], cond, [inc], body)
@@ -802,10 +854,10 @@ def flatten_seq(body):
     return out
 
 
-def random_program(rng, depth=3, loops=True, nvars=3):
+def random_program(rng, depth=3, loops=True, nvars=3, braceless_loops=False):
     nm = Names()
     vars_ = CVARS[:nvars]
-    body = random_body(rng, nm, depth, vars_, loops)
+    body = random_body(rng, nm, depth, vars_, loops, bl=braceless_loops)
     body.append(nm.say("end"))
     return flatten_seq(body)
 
@@ -851,6 +903,203 @@ def random_pack(rng, depth=2, loops=True, nvars=3, helpers=1):
     order = ["f"] + names
     rng.shuffle(order)
     return dict(prog=f, more=bodies, order=order)
+
+
+# ------------------------------------------------------------------ brace-less bodies (strengthening round 3)
+
+def mark_braceless(rng, body, p=0.6):
+    """the same tree with one-statement branch / else bodies written without braces (probability p each, where JMC's
+    grammar allows it: see NB).  Loop bodies always keep their braces (the grammar demands a block)."""
+    def mark(b, is_else=False):
+        nb = walk(b)
+        if nb_ok(nb, is_else) and rng.random() < p:
+            return NB(nb)
+        return nb
+
+    def walk(b):
+        out = []
+        for s in b:
+            k = s[0]
+            if k == "if":
+                out.append(("if", [(c, mark(bb)) for c, bb in s[1]], None if s[2] is None else mark(s[2], True)))
+            elif k == "while":
+                out.append(("while", s[1], walk(s[2])))
+            elif k == "dowhile":
+                out.append(("dowhile", walk(s[1]), s[2]))
+            elif k == "for":
+                out.append(("for", s[1], s[2], s[3], walk(s[4])))
+            else:
+                out.append(s)
+        return out
+    return walk(body)
+
+
+def count_braceless(body):
+    n = 0
+    for s in body:
+        k = s[0]
+        if k == "if":
+            for _c, b in s[1]:
+                n += isinstance(b, NB) + count_braceless(b)
+            if s[2] is not None:
+                n += isinstance(s[2], NB) + count_braceless(s[2])
+        elif k == "while":
+            n += count_braceless(s[2])
+        elif k == "dowhile":
+            n += count_braceless(s[1])
+        elif k == "for":
+            n += count_braceless(s[4])
+    return n
+
+
+BL_BODIES = ["cmd", "set", "if1", "if1or", "ifdeep", "for", "for_or", "for_ortop", "while", "while_or", "for_chain"]
+BL_LOOP_BODIES = [k for k in BL_BODIES if k.startswith(("for", "while"))]
+BL_POS = ["lone", "first_else", "else", "elif_last", "elif_else", "elif_mid", "elif_last3", "else3", "all_nb"]
+BL_FOLLOW = ["none", "say", "chain", "blchain", "while", "for", "dowhile", "for_or", "blloop"]
+BL_ENCL = ["top", "for_body", "while_body", "branch", "dowhile_body", "else_branch"]
+
+
+def bl_body(kind, nm, tag):
+    """-> (statements that must precede the chain, the brace-less body, {variable: domain} of stale counters).
+    A `for` counts on a variable that takes part in the enumeration of initial states (0 = the loop test holds on the
+    stale value although the initialiser has not run); a `while` counts on a `$L` variable initialised before the chain."""
+    say = lambda: nm.say(tag)
+    if kind == "cmd":
+        return [], NB([say()]), {}
+    if kind == "set":                                   # changes a variable the chain tests
+        return [], NB([("set", "$a", 0)]), {}
+    if kind == "if1":                                   # one line: merged into the guard
+        return [], NB([("if", [(atomic_cond("$n"), NB([say()]))], None)]), {}
+    if kind == "if1or":                                 # several lines (helper block of the inner condition)
+        return [], NB([("if", [(or_cond("$n", "$m"), [say()])], None)]), {}
+    if kind == "ifdeep":
+        inner = ("if", [(or_cond("$m", "$n"), NB([say()]))], None)
+        return [], NB([("if", [(atomic_cond("$n"), NB([inner]))], None)]), {}
+    if kind.startswith("for"):
+        q = nm.qvar()
+        g = (q, "<", 2)
+        if kind == "for":
+            cond, body = [("atom", g)], [say()]
+        elif kind == "for_or":                          # $q < 2 && ($n == 1 || $m != 1)
+            cond, body = [("atom", g), ("or", [[("$n", "==", 1)], [("$m", "!=", 1)]])], [say()]
+        elif kind == "for_ortop":                       # $q < 2 && $n == 1 || $q < 2 && $m == 0
+            cond, body = [("or", [[g, ("$n", "==", 1)], [g, ("$m", "==", 0)]])], [say(), say()]
+        else:                                           # a chain inside the loop
+            cond = [("atom", g)]
+            body = [("if", [(atomic_cond("$n"), NB([say()])), (or_cond("$m", "$n"), [say(), say()])], None)]
+        return [], NB([("for", [("set", q, 0)], cond, [("add", q, 1)], body)]), {q: (0, 3)}
+    lv = nm.loopvar()
+    g = (lv, "<", 2)
+    if kind == "while":
+        cond = [("atom", g)]
+    else:                                               # ($L < 2 && $n == 1) || ($L < 2 && $m != 1)
+        cond = [("or", [[g, ("$n", "==", 1)], [g, ("$m", "!=", 1)]])]
+    return [("set", lv, 0)], NB([("while", cond, [("add", lv, 1), say()])]), {}
+
+
+def bl_chain(pos, B, nm, conds, B2=None, B3=None):
+    """the chain with the brace-less body B in position `pos`; None when the combination is not expressible"""
+    blk = lambda t: [nm.say(t), nm.say(t)]
+    one = lambda t: [nm.say(t)]
+    c0, c1, c2 = conds
+    b_is_if = B[0][0] == "if"
+    if pos == "lone":
+        return ("if", [(c0, B)], None)
+    if pos == "first_else":
+        return ("if", [(c0, B)], blk("E"))
+    if pos == "else":
+        return None if b_is_if else ("if", [(c0, blk("T"))], B)
+    if pos == "elif_last":
+        return ("if", [(c0, blk("T")), (c1, B)], None)
+    if pos == "elif_else":
+        return ("if", [(c0, one("T")), (c1, B)], blk("E"))
+    if pos == "elif_mid":
+        return ("if", [(c0, blk("T")), (c1, B), (c2, one("U"))], None)
+    if pos == "elif_last3":
+        return ("if", [(c0, NB(one("T"))), (c1, blk("U")), (c2, B)], None)
+    if pos == "else3":
+        return None if b_is_if else ("if", [(c0, NB(one("T"))), (c1, NB(one("U")))], B)
+    if pos == "all_nb":
+        if B2 is None or B3 is None or B3[0][0] == "if":
+            return None
+        return ("if", [(c0, B2), (c1, B)], B3)
+    raise ValueError(pos)
+
+
+def bl_follow(kind, nm):
+    """-> (statements before the chain (counter initialisers), statements right after the chain)"""
+    if kind == "none":
+        return [], []
+    if kind == "say":
+        return [], [nm.say("F")]
+    if kind == "chain":
+        return [], [("if", [(atomic_cond("$d"), [nm.say("F"), nm.say("F")])], [nm.say("G")])]
+    if kind == "blchain":
+        return [], [("if", [(atomic_cond("$d"), NB([nm.say("F")]))], NB([nm.say("G")])), nm.say("H")]
+    if kind in ("for", "for_or"):
+        q = nm.loopvar()
+        cond = [("atom", (q, "<", 2))] if kind == "for" else [("or", [[(q, "<", 2), ("$d", "==", 1)], [(q, "<", 1)]])]
+        return [], [("for", [("set", q, 0)], cond, [("add", q, 1)], [nm.say("F")])]
+    if kind == "blloop":                 # another brace-less else-if + loop, then a plain loop
+        q, r = nm.loopvar(), nm.loopvar()
+        lp = lambda v, t: ("for", [("set", v, 0)], [("atom", (v, "<", 2))], [("add", v, 1)], [nm.say(t)])
+        return [], [("if", [(atomic_cond("$d"), NB([nm.say("F")])), (atomic_cond("$c"), NB([lp(q, "G")]))], None), lp(r, "H")]
+    lv = nm.loopvar()
+    body = [nm.say("F"), ("add", lv, 1)]
+    c = [("atom", (lv, "<", 2))]
+    return [("set", lv, 0)], [("while", c, body) if kind == "while" else ("dowhile", body, c)]
+
+
+def bl_enclose(kind, stmts, nm):
+    if kind == "top":
+        return stmts
+    if kind == "branch":
+        return [("if", [(atomic_cond("$e"), stmts)], [nm.say("X")]), nm.say("end")]
+    if kind == "else_branch":
+        return [("if", [(atomic_cond("$e"), [nm.say("X"), nm.say("X")])], stmts), nm.say("end")]
+    o = nm.loopvar()
+    c = [("atom", (o, "<", 2))]
+    if kind == "for_body":
+        return [("for", [("set", o, 0)], c, [("add", o, 1)], stmts), nm.say("end")]
+    inc = ("add", o, 1)
+    if kind == "while_body":
+        return [("set", o, 0), ("while", c, stmts + [inc]), nm.say("end")]
+    return [("set", o, 0), ("dowhile", [inc] + stmts, c), nm.say("end")]
+
+
+def braceless_items(rng, quick, bodies=None, follows=None, stream="braceless-matrix"):
+    """brace-less forms x body kind x chain position x what follows in the same block x enclosing block.
+    quick: every (body, position) pair with 3 followers chosen so that every (body, follower) and (position, follower)
+    pair occurs; the enclosing block and the condition kinds (atomic / `||`) rotate.  thorough: every triple."""
+    bodies = bodies or BL_BODIES
+    follows = follows or BL_FOLLOW
+    items = []
+    n = 0
+    for bi, bk in enumerate(bodies):
+        for pi, pk in enumerate(BL_POS):
+            fsel = follows if not quick else [follows[(bi + pi + 3 * r) % len(follows)] for r in range(3)]
+            for fk in dict.fromkeys(fsel):
+                n += 1
+                nm = Names()
+                pre, B, dom = bl_body(bk, nm, "B")
+                pre2, B2, dom2 = bl_body(bodies[(bi + 1) % len(bodies)], nm, "C")
+                pre3, B3, dom3 = bl_body(["cmd", "for", "while_or", "set", "for_or"][n % 5], nm, "D")
+                kinds = [(n >> j) & 1 for j in range(3)]
+                conds = [or_cond(CVARS[j], CVARS[j + 1]) if kinds[j] else atomic_cond(CVARS[j]) for j in range(3)]
+                ch = bl_chain(pk, B, nm, conds, B2, B3)
+                if ch is None:
+                    continue
+                if pk == "all_nb":
+                    pre, dom = pre + pre2 + pre3, {**dom, **dom2, **dom3}
+                fpre, fpost = bl_follow(fk, nm)
+                stmts = fpre + pre + [ch] + fpost
+                encl = BL_ENCL[n % len(BL_ENCL)] if n % 3 else "top"
+                prog = bl_enclose(encl, stmts, nm)
+                if encl == "top" and fk != "none" and n % 2:
+                    prog = prog + [nm.say("end")]
+                items.append(dict(prog=prog, cert=n % 2, stream=stream, cap=64, values=dom,
+                                  bl=dict(body=bk, pos=pk, follow=fk, encl=encl)))
+    return items
 
 
 # ------------------------------------------------------------------ fast evaluation of case files
@@ -1036,6 +1285,16 @@ def sub_programs(body):
                     put(("if", brs, nb))
             if len(brs) == 1 and els is None:
                 out.append(body[:i] + brs[0][1] + body[i + 1:])
+        elif k == "expand":
+            out.append(body[:i] + s[2] + body[i + 1:])
+            if len(s[2]) > 1:
+                for j in range(len(s[2])):
+                    put(("expand", s[1], s[2][:j] + s[2][j + 1:]))
+            for nb in sub_programs(s[2]):
+                if nb:
+                    put(("expand", s[1], nb))
+            for nc in sub_conds(s[1]):
+                put(("expand", nc, s[2]))
         elif k == "while":
             out.append(body[:i] + s[2] + body[i + 1:])          # the body once, without the loop
             for nb in sub_programs(s[2]):
@@ -1064,7 +1323,7 @@ def size_of(body):
         k = s[0]
         if k == "if":
             n += sum(size_of(b) + len(cond_atoms(c)) for c, b in s[1]) + (size_of(s[2]) if s[2] is not None else 0)
-        elif k == "while":
+        elif k in ("while", "expand"):
             n += size_of(s[2]) + len(cond_atoms(s[1]))
         elif k == "dowhile":
             n += size_of(s[1]) + len(cond_atoms(s[2]))
@@ -1235,8 +1494,8 @@ def to_tuples(x):
             return tuple(s)
         if k == "if":
             return ("if", [(cond(c), body(b)) for c, b in s[1]], None if s[2] is None else body(s[2]))
-        if k == "while":
-            return ("while", cond(s[1]), body(s[2]))
+        if k in ("while", "expand"):
+            return (k, cond(s[1]), body(s[2]))
         if k == "dowhile":
             return ("dowhile", body(s[1]), cond(s[2]))
         if k == "for":
